@@ -17,7 +17,9 @@ SEED = "/tmp/seed"
 BUG_FOCUS = {
     "W5": "Additional guidance for this round: do NOT change the function that most obviously implements the property. Break the property from a distance instead: in a helper, a data class, a base class, a plug-in, a module-level constant, a default argument, an `__init__`, an exception class hierarchy, a type registered at import time, or in the way two modules cooperate (caller and callee each look fine alone). Study the call chain first (src/puresnmp/api/raw.py, api/pythonic.py, util.py, pdu.py, adt.py, types.py, varbind.py, transport.py, credentials.py, exc.py, plugins/*.py, src/puresnmp_plugins/**). The two changes must be in different files and of different kinds. Disguise each as something a reviewer would approve (clean-up, typing fix, optimisation, logging, robustness).",
     "W6": "Additional guidance for this round: write the change the way a real refactoring would look - move code into a new helper function or method, rename variables, convert a loop into a comprehension (or back), merge two loops, introduce a small class or dataclass, replace index arithmetic by zip/enumerate/slicing - and hide the defect inside that refactoring, so that the diff is 15-60 lines of mostly behaviour-preserving restructuring with one semantic slip. The two changes must be in different functions and of different kinds.",
+    "W7": "Additional guidance for this round: make each change TINY - at most three changed lines, ideally one token: an operator (< vs <=, and vs or, is vs ==, + vs -), operator precedence or a missing pair of parentheses, a boundary constant or default value, a slice bound, the key of a sort, an exception class in an except clause or a raise, an argument order, a swapped pair of variables of the same type, a mutable default argument, `min` vs `max`, an attribute read of the wrong object (self.x vs other.x). Choose places where the existing tests happen not to look: argument values at the edges of what the API accepts (empty list, one element, duplicates, zero / negative / huge numbers, retries=1, bulk size 1, empty community or password, maximum message size, engine boots near 2**31, OIDs with large sub-identifiers, long values that need multi-byte BER lengths) and the less travelled modules (src/puresnmp/util.py, types.py, varbind.py, credentials.py, exc.py, transport.py, plugins/*.py, src/puresnmp_plugins/auth/*.py, priv/*.py, security/*.py, mpm/*.py). The two changes must be in different files and of different kinds.",
 }
+BUG_FOCUS["W8"] = "Additional guidance for this round: put the defect on a path that is NOT the happy path - an exception handler, a clean-up or `finally` block, a retry or fallback branch, a cancellation (`asyncio.CancelledError`, `wait_for`), a branch taken only for unusual-but-legal agent behaviour (error-status with odd error-index, endOfMibView in the middle, reports, truncated GETBULK responses, duplicate or late datagrams, discovery replies with unusual values), or for unusual-but-legal caller input (empty list, duplicates, zero, maximum sizes). The happy path must stay bit-identical. 2-12 changed lines per change; the two changes in different files or functions and of different kinds."
 BUG_FOCUS_DEFAULT = "Additional guidance for this round: be creative and look beyond the most obvious function; prefer semantically subtle changes. The two changes must be of different kinds and in different functions."
 
 BENIGN_THEMES = [
@@ -30,6 +32,25 @@ BENIGN_THEMES = [
     "PERFORMANCE-minded rewrites that are exactly equivalent: caching of immutable lookups (functools.lru_cache on pure functions of hashable arguments), hoisting loop-invariant computations, local-variable aliases of attributes that cannot change meanwhile, `''.join` / bytes concatenation rewrites, set/dict literal instead of constructor calls, generator expressions vs lists where the consumer iterates exactly once",
     "MODERNISATION: dataclass / NamedTuple field defaults, `typing` clean-ups, f-strings, `super()` without arguments, pathlib-free import clean-ups, `__all__`, `__slots__` where safe, replacing `type(x) == T` by `isinstance` ONLY where no subclass relation exists between the candidate classes, walrus operator, `match` is not allowed (python 3.8 compatible code only)",
 ]
+
+BENIGN_THEMES_BY_PREFIX = {
+    "W8": BENIGN_THEMES + [
+        "ASYNC RESTRUCTURING that keeps every await in the same order relative to reads and writes of shared state: `async for` <-> explicit `__anext__` loops where equivalent, helper coroutines extracted / inlined, `asyncio.ensure_future` vs `loop.create_task` for the trap callback, context managers around the retry loop that do nothing on exit, `try/finally` clean-ups that are equivalent to the existing ones",
+        "OBSERVABILITY HOOKS that default to off: optional `on_request` / `on_response` callbacks or a metrics counter object on Client / transport that only *observe* (called with copies or immutable values), structured log records (`extra=`), `__repr__` for data classes, timing measurements with `time.perf_counter` that are never used for protocol decisions",
+        "STRICTER TYPING AND PY3.8-COMPATIBLE MODERNISATION of src/puresnmp_plugins/** and src/puresnmp/plugins/**: Protocol classes for plug-in modules, `Final`, `Literal`, explicit `Optional`, keyword-only arguments for private helpers (all call sites updated), `typing.cast` removed where an isinstance check exists already, `dataclasses.field(default_factory=...)`",
+        "DEAD-CODE AND DUPLICATION CLEAN-UP: merge the two nearly identical community security models / MPMs through a shared private base class or helper while keeping both plug-in modules and identifiers; remove unused imports / variables; unify duplicated error messages through constants; fold `is_confirmed` style predicates into a table; everything observable stays as it is",
+    ],
+    "W7": [
+        "MODULE REORGANISATION that keeps every existing import path working: move a group of functions or classes into a new module (for example the walk helpers of puresnmp/util.py into puresnmp/walk.py, the error classes for agent error-status into puresnmp/errors.py, the SNMPv3 data classes into a sub-module) and re-export them from the old module (`from .new import name  # re-export`), update internal imports to the new location in some places and leave the old ones elsewhere",
+        "RENAMING of private names throughout: private methods and attributes of Client, PyWrapper, V3MPM, UserSecurityModel, SNMPClientProtocol (leading underscore names, local variables, parameters of private functions, module-level private constants). Public names and keyword arguments of public functions keep their names. Rename consistently at every use",
+        "A NEW PLUG-IN next to the existing ones that changes nothing for today's users: for example an authentication plug-in module for another hash built with the same hashbase helpers, a privacy plug-in skeleton that raises NotImplementedError, a message-processing / security model alias module; plus the small registry or loader tweaks it needs. Existing identifiers, tables and behaviour stay exactly as they are",
+        "NEW PUBLIC CONVENIENCE API built only from existing operations, existing behaviour unchanged: e.g. Client.walk_values(), Client.exists(oid), Client.get_many as alias, PyWrapper.get_str(), an async context manager on Client, `Client.from_url()`, a `limit=` keyword on walk() that stops the iteration in the caller-facing generator only (default None = today's behaviour)",
+        "DEFENSIVE INPUT VALIDATION at the public API boundary that only rejects calls that could never have worked or silently misbehaved before (wrong types, negative sizes, empty OID lists where the agent would be asked nothing), with clear exceptions of existing classes (TypeError / ValueError / SnmpError); every call that worked before still behaves identically",
+        "CONVERSION OF CLOSURES AND CALLBACK FUNCTIONS INTO SMALL CLASSES (or the reverse): the transport handler closure in Client.__init__, the bulk-walk fetcher closure, the trap decode closure in register_trap_callback, the hash plug-in factories, the timing cache of the USM as a tiny class with get/set methods; behaviour identical, same objects reachable under the same public attribute names",
+        "CONTROL-FLOW RESTRUCTURING without change of meaning in the long functions: replace nested if/else by guard clauses or the reverse, `while` with a counter by `for ... in range` only where exactly equivalent, try/except/else/finally re-nesting that keeps every exception path, flags replaced by early returns, loops split in two passes where no data dependency exists, `for`/`else` introduced or removed",
+        "TYPE-LEVEL AND DATA-MODEL CLEAN-UPS: NamedTuple <-> frozen dataclass where tuple behaviour (unpacking, indexing, ordering) is preserved by adding the needed dunder methods, Enum / IntEnum for integer constants that are only compared, TypedDict / Protocol annotations, `Final` constants, `Optional` made explicit, overloads; values on the wire and results stay bit-identical",
+    ],
+}
 
 
 def props():
@@ -57,7 +78,7 @@ Deliverables - create the directory {wt}/seed_out containing:
   change1.diff, change2.diff   (each produced with `git diff` inside the worktree with ONLY that change applied; paths relative to the repo root, i.e. src/...)
   demo1.py, demo2.py           (the demonstrations; they must take the sources from PYTHONPATH; if they share a helper module put it into seed_out too)
   notes.md                     (one section per change headed "## Change 1 - <title>" / "## Change 2 - <title>": what it breaks, a paragraph starting "What is needed for it to manifest:", and the exact commands you ran with their outcomes: test suite with the change, demo with the change (fails), demo without the change (passes))
-Leave the worktree's tracked files UNCHANGED at the end (git checkout -- . ; seed_out is untracked). Finish by replying with a short summary of the two changes.
+Leave the worktree's tracked files UNCHANGED at the end (git checkout -- . ; seed_out is untracked). NEVER use `git stash` (the stash is shared between worktrees of other people); undo edits with `git checkout -- .` only. Finish by replying with a short summary of the two changes.
 {focus}
 """
 
@@ -73,7 +94,7 @@ The library is supposed to satisfy the following twenty properties:
 Task: produce FOUR independent small changes that a maintainer could plausibly commit and that KEEP ALL TWENTY PROPERTIES TRUE for every input. Theme for your four changes: {theme}.
 Each change must: keep the package importable; keep the existing test suite green (cd {wt} && PYTHONPATH={wt}/src /venv/bin/python -m pytest -q -p no:cacheprovider -x  -> 174 passed); change 8-70 lines; and genuinely preserve every one of the twenty properties for all inputs (think carefully - if a change could violate a property in some corner case, pick another change; do not change what is sent on the wire, what is accepted, what is returned or raised in any situation the properties talk about). Be bold about the *form* of the code (that is what is being tested) and conservative about its meaning. Each of the four should touch different functions.
 
-For each change k=1..4: apply it alone on a clean tree, run the suite, save it as {wt}/seed_out/change<k>.diff (git diff with ONLY that change; paths relative to the repo root), then git checkout -- . Also write {wt}/seed_out/notes.md with one section per change headed "## change<k>.diff - <title>": what it does and a short argument why each potentially affected property still holds. Leave tracked files unchanged at the end. Reply with a short summary.
+For each change k=1..4: apply it alone on a clean tree, run the suite, save it as {wt}/seed_out/change<k>.diff (git diff with ONLY that change; paths relative to the repo root), then git checkout -- . Also write {wt}/seed_out/notes.md with one section per change headed "## change<k>.diff - <title>": what it does and a short argument why each potentially affected property still holds. Leave tracked files unchanged at the end. NEVER use `git stash` (shared between worktrees); undo edits with `git checkout -- .` only. Reply with a short summary.
 """
 
 
@@ -96,7 +117,7 @@ def main():
     for k in range(1, nbenign + 1):
         wid = f"{prefix}B{k}"
         ids.append(wid)
-        open(f"{SEED}/prompts/{wid}.txt", "w").write(benign_prompt(wid, BENIGN_THEMES[(k - 1) % len(BENIGN_THEMES)], plist))
+        open(f"{SEED}/prompts/{wid}.txt", "w").write(benign_prompt(wid, BENIGN_THEMES_BY_PREFIX.get(prefix, BENIGN_THEMES)[(k - 1) % len(BENIGN_THEMES_BY_PREFIX.get(prefix, BENIGN_THEMES))], plist))
     for wid in ids:
         wt = f"{SEED}/{wid}"
         if not os.path.exists(wt):
